@@ -162,7 +162,7 @@ theorem kwayLoop_total (R : RHyp E rank Good) {L Al A : Nat} (T : THyp E L Al A)
     obtain ⟨⟨pa, q, nt⟩, h'⟩ := eh
     simp only
     obtain ⟨hm, hsub⟩ := mem_of_pop _ _ _ _ hpop
-    obtain ⟨hsh', hmin⟩ := Heapq.pop_isHeap (ltS_weakOrder E.ops H.weak) _ _ _ h.sheap hpop
+    obtain ⟨hsh', hmin⟩ := Heapq.pop_isHeap_on (ltS_weakOrderOn H) _ _ _ (start_good R h.base.sinv) h.sheap hpop
     obtain ⟨g0, hnt0, hpq⟩ := h.ginv.popStart R.disj hpop
     have h0 : OG E rank { s with startHeap := h' } ((pa, q, nt) :: emE) := by
       refine ⟨⟨g0.sinv, g0.ninv, h.base.hinv, h.base.nodel⟩, g0, ?_, ?_, ?_, hsh', ?_⟩
@@ -185,7 +185,7 @@ theorem kwayLoop_total (R : RHyp E rank Good) {L Al A : Nat} (T : THyp E L Al A)
       (by
         intro x hx
         rcases List.mem_cons.mp hx with rfl | hx
-        · exact H.weak.irrefl _
+        · exact H.weak.irrefl (start_good R h.base.sinv _ hm)
         · exact h.heap_ge _ hm x hx)
       (by
         intro k w' pr' hk hw' hpr'
